@@ -382,16 +382,19 @@ def marker(n):
     return 'ZQ%dQZ' % n
 
 def request_tree(s_kids, name_kids, tag_pieces, arr_strings, echo_extra=(), item_extra=(), arr_extra=(),
-                 item_attrs=()):
+                 item_attrs=(), n_kids=None):
     item = ('e', T_ITEM, [(A_TAG, tag_pieces)] + list(item_attrs),
-            list(item_extra) + [('e', T_NAME, [], name_kids), ('e', T_N, [], [('t', '5')])])
+            list(item_extra) + [('e', T_NAME, [], name_kids), ('e', T_N, [], n_kids or [('t', '5')])])
     arr = ('e', T_ARR, [], list(arr_extra) + [('e', T_STRING, [], k) for k in arr_strings])
     return ('e', T_ECHO, [], list(echo_extra) + [('e', T_S, [], s_kids), item, arr])
 
 def soap_wrap(root, nsenv):
     return ('e', T_ENV, [], [('e', T_BODY, [], [root])], nsenv)
 
-POSITIONS = ['s', 'name', 'string', 'attr', 'between-echo', 'between-item', 'between-arr']
+# 'n' is the text of a NON-string leaf (Integer): digits first, then the payload - an oracle-only position
+# (the model's observation does not include n): a reader that takes the XPath string-value of the element
+# instead of its text would substitute the entity there
+POSITIONS = ['s', 'name', 'string', 'attr', 'between-echo', 'between-item', 'between-arr', 'n']
 
 def place(rng, pos, payload_text=None, payload_attr=None):
     """a valid request with the payload (a list of content nodes / attribute pieces) at `pos`"""
@@ -415,6 +418,8 @@ def place(rng, pos, payload_text=None, payload_attr=None):
             kw['echo_extra'] = payload_text
         elif pos == 'between-item':
             kw['item_extra'] = payload_text
+        elif pos == 'n':
+            kw['n_kids'] = [('t', '5')] + payload_text
         else:
             kw['arr_extra'] = payload_text
     return request_tree(s_kids, name_kids, tag_pieces, strings, **kw)
@@ -813,7 +818,7 @@ def spyne_layer(check, world, docs, tier):
             if route in ORACLE_ROUTES:
                 continue
             # correspondence case
-            if pos == 'between-arr' or (transport == 'WSGI-multipart' and any(d[0] == 'pe' for d in doc['decls'])):
+            if pos in ('between-arr', 'n') or (transport == 'WSGI-multipart' and any(d[0] == 'pe' for d in doc['decls'])):
                 # not modelled: an entity node that is a child of an Array element is handed to user code as
                 # the literal text '&name;' (lxml's _Entity.text); lxml-default quirks with PE references
                 continue
@@ -979,6 +984,65 @@ def resource_check(check, tier):
 
 
 # ------------------------------------------------------------------ configuration table vs. the running objects
+def declared_nesting(check):
+    """nesting through DECLARED members of a recursive type, up to just under libxml2's depth limit: the
+    request is served or refused as a client fault - the deserialiser's own recursion must not be what gives
+    way first (no RecursionError or any other exception may escape)"""
+    from spyne import Application, rpc, ServiceBase, Unicode, ComplexModel
+    from spyne.model.complex import SelfReference
+    from spyne.protocol.xml import XmlDocument
+    from spyne.protocol.soap import Soap11, Soap12
+
+    class Node(ComplexModel):
+        __namespace__ = NS_TNS
+        name = Unicode
+        child = SelfReference
+
+    class Deep(ServiceBase):
+        @rpc(Node, _returns=Unicode)
+        def deep(ctx, node):
+            d = 0
+            while node is not None:
+                d += 1
+                node = node.child
+            CAPTURE.append(d)
+            return str(d)
+    for nm, P, nsenv in (('XmlDocument', XmlDocument, None), ('Soap11', Soap11, NS11), ('Soap12', Soap12, NS12)):
+        app = Application([Deep], NS_TNS, name='C17Deep', in_protocol=P(), out_protocol=P())
+        extra = 2 if nsenv else 0           # Envelope + Body
+        for depth in (10, 200, 240, 247, 250, 252, 253, 254, 255, 256, 300):
+            k = depth - 2 - extra            # <deep><node> + k x <child>
+            if k < 1:
+                continue
+            body = ('<deep xmlns="%s"><node>' % NS_TNS) + '<child>' * k + '<name>x</name>' + '</child>' * k + '</node></deep>'
+            if nsenv:
+                body = '<e:Envelope xmlns:e="%s"><e:Body>%s</e:Body></e:Envelope>' % (nsenv, body)
+            for transport in ('ServerBase', 'WSGI'):
+                del CAPTURE[:]
+                esc = None
+                status, out = None, b''
+                try:
+                    if transport == 'ServerBase':
+                        status, out = call_serverbase(app, body.encode('ascii'))
+                    else:
+                        status, out = call_wsgi(app, body.encode('ascii'),
+                                                'application/soap+xml' if nm == 'Soap12' else 'text/xml')
+                except BaseException as e:
+                    esc = type(e).__name__
+                kind = 'escape' if esc else classify(status, out, transport)
+                check.count(('declared-nesting', nm, transport, depth))
+                if kind not in ('ok', 'syntax'):
+                    check.fail('C17|declared-nesting|%s|%s|%s' % (kind, nm, transport),
+                               'a request nested %d elements deep through declared members of a recursive type ended as '
+                               '%s (%s): neither served nor refused as Client.XMLSyntaxError' % (depth, kind, esc or status),
+                               {'route': [nm, transport], 'depth': depth, 'request_head': body[:200],
+                                'observed': {'kind': kind, 'escaped_exception': esc, 'status': status}})
+                elif kind == 'ok' and CAPTURE != [k + 1]:
+                    check.fail('C17|declared-nesting|wrong-depth|%s|%s' % (nm, transport),
+                               'a request nested %d deep reached user code as a chain of %r nodes' % (depth, CAPTURE),
+                               {'route': [nm, transport], 'depth': depth})
+
+
 def table_correspondence(check):
     from spyne.protocol.xml import XmlDocument
     from spyne.protocol.soap import Soap11, Soap12
@@ -1067,6 +1131,7 @@ def run(check):
             check.sample({'family': f, 'position': p, 'request': render_doc(world, d).decode()[:300]})
         lib.flush_correspondences(check)
         resource_check(check, tier)
+        declared_nesting(check)
     finally:
         world.close()
     return check.finish()
